@@ -38,7 +38,7 @@ def queries(ctx):
             qs.append(Q(name="template_%del_n%s" % (ne, "".join(map(str, names))), harness="C07_chain.c", units=units(cap + 8),
                         defines=("NELEM=%d" % ne, "V_STR_CAP=8", "NAMESEL=%d" % sel), unwind=24,
                         unwindset=("snoopy_filtering_check_chain.0:%d" % (ne + 2), "strncpy.0:%d" % (cap + 10), "strlen.0:%d" % (cap + 2), "strtok_r.0:%d" % (cap + 2)),
-                        flags=("--object-bits", "10"), timeout=900, mem_gb=3,
+                        flags=("--object-bits", "10"), timeout=1500, mem_gb=8,
                         bounds="as allnames with the element names fixed to %s (VERIF_SEED-sampled partition; cheap cross-check of the symbolic-name query)" % names))
     sl = 8 if thorough else 6
     qs.append(Q(name="symbolic_%d" % sl, harness="C07_chain.c", units=units(sl + 4),
